@@ -209,6 +209,17 @@ def expected_op(t, regs, op):
         if len(hits) == 2:
             return "between %s %s" % (t.show(hits[0]), t.show(hits[1])), hits[1]
         return "?internal: %d tokens touch the offset" % len(hits), None
+    if name == "taoh":
+        off = int(parts[2])
+        s, e = t.rng(p)
+        if not (s <= off <= e):
+            return (lambda got: None if got.startswith("PANIC:") else "offset outside the node's range must panic, got " + got), None
+        hits = [q for q in t.tokens_in(p) if t.rng(q)[0] != t.rng(q)[1] and t.rng(q)[0] <= off <= t.rng(q)[1]]
+        if len(hits) > 2:
+            return "?internal: %d tokens touch the offset" % len(hits), None
+        sh = lambda q: t.show(q)
+        return "L=%s R=%s it=[%s] sz=%s" % (sh(hits[0]) if hits else "-", sh(hits[-1]) if hits else "-", ",".join(map(sh, hits)),
+                                            ",".join(str(max(len(hits) - k, 0)) for k in range(4))), (hits[-1] if hits else None)
     if name == "cov":
         rs_, re_ = int(parts[2]), int(parts[3])
         s, e = t.rng(p)
